@@ -10,3 +10,5 @@ pub use crate::socket::mapped_addrs::verif_hooks as mapped_addrs;
 pub use crate::net_report::verif_hooks as net_report;
 /// Transports: relay receive path without actor, send routing decisions.
 pub use crate::socket::transports::verif_hooks as transports;
+/// Per-remote path state: synthetic `RemotePathState`, pruning, resolve requests.
+pub use crate::socket::remote_map::path_state_verif_hooks as path_state;
